@@ -107,30 +107,57 @@ func cmdReplay(path string) int {
 		fmt.Fprintln(os.Stderr, err)
 		return 2
 	}
-	var rec map[string]interface{}
+	var rec struct {
+		Property   string            `json:"property"`
+		Obligation string            `json:"obligation"`
+		Kind       string            `json:"kind"`
+		Function   string            `json:"function"`
+		Insts      []string          `json:"instantiations"`
+		Status     string            `json:"solver_status"`
+		Backend    string            `json:"solver_backend"`
+		Model      map[string]string `json:"model"`
+		Confirmed  bool              `json:"confirmed_on_real_code"`
+		Note       string            `json:"note"`
+	}
 	if err := json.Unmarshal(b, &rec); err != nil {
 		fmt.Fprintln(os.Stderr, err)
 		return 2
 	}
-	fmt.Printf("property   : %v\nobligation : %v\nsolver     : %v (%v)\nconfirmed  : %v\n", rec["property"], rec["obligation"], rec["solver_status"], rec["solver_backend"], rec["confirmed_on_real_code"])
-	rp, _ := rec["replay"].(map[string]interface{})
-	if rp == nil {
-		fmt.Println("no replayable input was derived; see solver_output in the file")
-		return 0
-	}
-	src, _ := rp["test_source"].(string)
-	if src == "" {
-		fmt.Println("no test source recorded")
-		return 0
-	}
-	out, err := runOverlayTest(src, fmt.Sprint(rp["test_name"]))
-	fmt.Println(out)
+	fmt.Printf("property   : %s\nobligation : %s\nsolver     : %s (%s)\nrecorded   : confirmed_on_real_code=%v\n", rec.Property, rec.Obligation, rec.Status, rec.Backend, rec.Confirmed)
+	initWork()
+	defer cleanupWork()
+	s, err := newSession()
 	if err != nil {
-		fmt.Println("replay run:", err)
+		fmt.Fprintln(os.Stderr, "error:", err)
+		return 2
 	}
-	if strings.Contains(out, "REPLAY-CONFIRMED") {
+	inst := ""
+	if m := regexp.MustCompile(`\[([^\]]*)\]`).FindStringSubmatch(rec.Obligation); m != nil {
+		inst = m[1]
+	}
+	o := &Obligation{Name: rec.Obligation, Kind: rec.Kind, Fn: rec.Function, InstName: inst,
+		Res: &SolveResult{Status: rec.Status, Backend: rec.Backend, Model: rec.Model}}
+	if strings.Contains(rec.Obligation, "/bounded:") {
+		fmt.Println("bounded stand-in: re-run the property check to repeat the exhaustive execution;", rec.Note)
+		return 0
+	}
+	ok, det := s.replayObligation(rec.Property, o)
+	if det != nil {
+		if out, _ := det["test_output"].(string); out != "" {
+			fmt.Println(out)
+		}
+		if v, okv := det["violated_clauses_on_real_code"]; okv {
+			fmt.Println("violated contract clauses on the real code:", v)
+		}
+		if n, okn := det["note"]; okn {
+			fmt.Println("note:", n)
+		}
+	}
+	if ok {
+		fmt.Printf("REPLAY: the failing input of %s is confirmed on the real code\n", rec.Obligation)
 		return 1
 	}
+	fmt.Println("REPLAY: no failing input could be confirmed on the real code (the obligation is undischarged; see solver_output in the file)")
 	return 0
 }
 
